@@ -76,7 +76,10 @@ def compare(viol, tag, cmd, exp, got, root_rel=b''):
             if g[1] != payload:
                 viol.append(('C06-content:%s' % tag, "'lha %s': %r has %d bytes, archived %d (first difference at %s)"
                              % (cmd, p, len(g[1]), len(payload), next((i for i in range(min(len(g[1]), len(payload))) if g[1][i] != payload[i]), 'length'))))
-            if mode is not None and (g[2] & 0o777) != (mode & 0o777):      # permission bits; set-id bits are subject to OS policy on write
+            # permission bits; the set-id bits of a file that was written to are subject to OS policy (the kernel clears them when an
+            # unprivileged process writes), so they are compared only for files that received no data
+            mask = 0o777 if payload else 0o6777
+            if mode is not None and (g[2] & mask) != (mode & mask):
                 viol.append(('C06-file-mode:%s' % tag, "'lha %s': %r has mode %o, recorded %o" % (cmd, p, g[2], mode)))
             if mtime and g[3] != mtime:
                 viol.append(('C06-file-mtime:%s' % tag, "'lha %s': %r has mtime %d, recorded %d" % (cmd, p, g[3], mtime)))
